@@ -17,6 +17,10 @@ def riem_projection(E, s):
     else:
         x, xc = tt_input(E, 'x', N, Rx, 'float64', M, via=s.get('via'))
     z, zc = tt_input(E, 'z', N, s['Rz'], 'float64', M)
+    if s.get('z_rounded'):
+        # the projected tensor comes out of round(): its cores are right-orthogonal, the base point's are not
+        z = z.round()
+        zc = list(z.cores)
     P = tt.manifold.riemannian_projection
     xd, zd = dense(E, xc), dense(E, zc)
     what = s['what']
